@@ -363,6 +363,9 @@ func checkBulkOps(p *Program, r *Report, prop string) {
 	checkEnumerationLoops(p, r, cOnly)
 	checkReductionInit(p, r, cOnly)
 	checkFlatDecoding(p, r, cOnly)
+	if !cOnly {
+		checkHelpersAlwaysWrite(p, r)
+	}
 
 	// ---- R02.1(b,c): Unroll write-through sites
 	nSites := 0
@@ -1066,6 +1069,18 @@ func checkEnumerationLoops(p *Program, r *Report, cOnly bool) {
 			if bad == "" {
 				// idx starts as NewIndex(0)
 				for _, o := range origins(c.Common().Args[0]) {
+					// a leading part idx[:k] of an index vector starts where the vector starts
+					for {
+						sl, isSl := o.(*ssa.Slice)
+						if !isSl || sl.Low != nil {
+							break
+						}
+						if os := origins(sl.X); len(os) == 1 && os[0] != nil {
+							o = os[0]
+						} else {
+							break
+						}
+					}
 					if _, isMake := o.(*ssa.MakeSlice); isMake {
 						continue // make([]int, n) is the zero index
 					}
@@ -1277,4 +1292,149 @@ func checkFlatDecoding(p *Program, r *Report, cOnly bool) {
 		}
 	}
 	r.Floor("R02.9", "flat-position decodings", n, 1)
+}
+
+
+// checkHelpersAlwaysWrite (R02.10): a whole-array helper func(dest, source, …) of package data, which exists to
+// write dest, writes it on every path: every return is reached only through a loop that writes dest (element store
+// through dest.Unroll(), dest.Set…) or through a call that hands dest on to another such helper. A shortcut return
+// ("nothing to do for this argument value") leaves dest unwritten, which is not what visiting every element gives.
+func checkHelpersAlwaysWrite(p *Program, r *Report) {
+	r.Rule("R02.10", "whole-array helpers write their destination on every path: in every function of package data whose first parameter is an array it may write (effect summary), no return is reachable from the entry without passing a loop that writes that array or a call that hands it to another writing helper")
+	eff := nil2eff(p)
+	n := 0
+	for _, fn := range p.PkgFuncs("data") {
+		if fn.Blocks == nil || fn.Signature.Recv() != nil || len(fn.Params) < 2 || fn.Parent() != nil {
+			continue
+		}
+		dest := fn.Params[0]
+		if !isNDType(dest.Type()) || !isNDType(fn.Params[1].Type()) || eff.Mutates(fn, 0) == nil {
+			continue
+		}
+		n++
+		key := FuncKey(fn) + ":always-writes"
+		loops := findLoops(fn)
+		W := map[*ssa.BasicBlock]bool{}
+		mark := func(b *ssa.BasicBlock) {
+			if l := innermostLoop(loops, b); l != nil {
+				for l.Parent != nil {
+					l = l.Parent
+				}
+				W[l.Header] = true
+			} else {
+				W[b] = true
+			}
+		}
+		isDest := func(v ssa.Value) bool {
+			if v == nil {
+				return false
+			}
+			if origin1(v) == ssa.Value(dest) {
+				return true
+			}
+			// the cell a captured parameter is spilled into
+			if a, ok := v.(*ssa.Alloc); ok {
+				if sv := singleStoreCell(a); sv != nil && origin1(sv) == ssa.Value(dest) {
+					return true
+				}
+			}
+			return false
+		}
+		eachInstr(fn, func(b *ssa.BasicBlock, _ int, ins ssa.Instruction) {
+			switch x := ins.(type) {
+			case *ssa.Store:
+				if ia, ok := x.Addr.(*ssa.IndexAddr); ok {
+					if c, ok := origin1(ia.X).(*ssa.Call); ok && callName(c.Common()) == "Unroll" && isDest(recvOf(c.Common())) {
+						mark(b)
+					}
+				}
+			case ssa.CallInstruction:
+				c := x.Common()
+				if c.IsInvoke() && isDest(c.Value) {
+					nm := c.Method.Name()
+					if strings.HasPrefix(nm, "Set") || strings.HasPrefix(nm, "Apply") || nm == "CopyFrom" {
+						mark(b)
+					}
+					return
+				}
+				if f := c.StaticCallee(); f != nil {
+					for j, a := range c.Args {
+						if isDest(a) && eff.Mutates(f, j) != nil {
+							mark(b)
+						}
+						// a visitor closure that captures dest and writes it, handed to an enumeration helper
+						// that calls it (ForEachIndex(shape, func(idx){ dest.Set(idx, …) }))
+						if mc, ok := a.(*ssa.MakeClosure); ok {
+							cl, _ := mc.Fn.(*ssa.Function)
+							if cl == nil || !callsItsParam(f, j) {
+								continue
+							}
+							for bi, bnd := range mc.Bindings {
+								if isDest(bnd) && eff.MutatesFree(cl, bi) != nil {
+									mark(b)
+								}
+							}
+						}
+					}
+				}
+			}
+		})
+		reach := reachable(fn.Blocks[0], func(from *ssa.BasicBlock, i int) bool { return W[from.Succs[i]] })
+		// a return taken only when there is nothing to visit (size/len == 0) writes nothing, like the loop would
+		emptyGuarded := func(b *ssa.BasicBlock) bool {
+			for _, g := range guardsAt(b) {
+				bo, ok := g.Cond.(*ssa.BinOp)
+				if !ok {
+					continue
+				}
+				isCount := func(v ssa.Value) bool {
+					c, ok := origin1(v).(*ssa.Call)
+					if !ok {
+						return false
+					}
+					nm := callName(c.Common())
+					return nm == "Product" || nm == "len" || strings.HasPrefix(nm, "Len")
+				}
+				c0, isC := constInt(bo.Y)
+				if !isC || !isCount(bo.X) {
+					continue
+				}
+				switch {
+				case bo.Op == token.EQL && c0 == 0 && g.Val, bo.Op == token.NEQ && c0 == 0 && !g.Val,
+					bo.Op == token.LEQ && c0 == 0 && g.Val, bo.Op == token.GTR && c0 == 0 && !g.Val,
+					bo.Op == token.LSS && c0 == 1 && g.Val, bo.Op == token.GEQ && c0 == 1 && !g.Val:
+					return true
+				}
+			}
+			return false
+		}
+		var bad *ssa.Return
+		if !W[fn.Blocks[0]] {
+			for _, ret := range returnsOf(fn) {
+				if reach[ret.Block()] && !W[ret.Block()] && !emptyGuarded(ret.Block()) {
+					bad = ret
+				}
+			}
+		}
+		if bad != nil {
+			r.Fail("R02.10", key, p.Pos(bad.Pos()), fmt.Sprintf("%s can return without having written its destination: on that path dest keeps its old contents, while visiting the elements one by one would have stored source's (transformed) values", fn.Name()))
+		} else {
+			r.OK("R02.10", FuncKey(fn)+": every return is reached through a write of dest")
+		}
+	}
+	r.Floor("R02.10", "whole-array helpers with a destination", n, 6)
+}
+
+
+// callsItsParam: f invokes its j-th parameter (a function value) inside a loop or directly.
+func callsItsParam(f *ssa.Function, j int) bool {
+	if f == nil || f.Blocks == nil || j >= len(f.Params) {
+		return false
+	}
+	for _, c := range callsIn(f) {
+		if c.Common().Value == ssa.Value(f.Params[j]) {
+			return true
+		}
+	}
+	return false
 }
